@@ -112,25 +112,28 @@ type Freedoms struct {
 
 // World is the shared engine with its ground truth.
 type World struct {
-	S        *rt.Sched
-	Inner    storage.KvStorage
-	Lazy     bool // buffer batch operations until Commit (engines whose Begin takes a lock)
-	GT       []*Entry
-	Plan     []*Fault
-	Rates    Rates
-	Free     Freedoms
-	Parts    func(start, end []byte) []storage.Partition
-	Fired    map[string]int // fault kind -> times actually fired
-	Calls    map[string]int // op -> calls
-	LockKey  []byte         // set by the world for classification
-	CompKey  []byte
-	Probes   map[string]int
-	OnCrash  func(node int)
-	TSOFn    func(inner uint64) uint64
-	applySeq int
-	mu       sync.Mutex
-	TagFn    func(task string) interface{}
-	GetLog   []GetRec // point reads of keys outside the data layout (lock, compaction record)
+	S       *rt.Sched
+	Inner   storage.KvStorage
+	Lazy    bool // buffer batch operations until Commit (engines whose Begin takes a lock)
+	GT      []*Entry
+	Plan    []*Fault
+	Rates   Rates
+	Free    Freedoms
+	Parts   func(start, end []byte) []storage.Partition
+	Fired   map[string]int // fault kind -> times actually fired
+	Calls   map[string]int // op -> calls
+	LockKey []byte         // set by the world for classification
+	CompKey []byte
+	Probes  map[string]int
+	// LockLeaks: write batches of a lock-holding engine that were begun and never committed (see yield)
+	LockLeaks []string
+	openLazy  map[*Batch]string
+	OnCrash   func(node int)
+	TSOFn     func(inner uint64) uint64
+	applySeq  int
+	mu        sync.Mutex
+	TagFn     func(task string) interface{}
+	GetLog    []GetRec // point reads of keys outside the data layout (lock, compaction record)
 }
 
 // GetRec is one point read observed at the seam.
@@ -185,6 +188,18 @@ func (h *Handle) yield(site string, key []byte) {
 	w := h.W
 	if w.S.NodeDead(h.Node) {
 		select {} // a dead process gets no answers
+	}
+	if w.Lazy && (site == "kv.get" || site == "kv.iter" || site == "kv.del" || site == "kv.delcur" || site == "kv.commit") {
+		// The engine holds its store lock from BeginBatchWrite to Commit (that is why its batches are
+		// replayed at Commit here). A batch that was begun and is still open when another call that needs
+		// the lock arrives was abandoned - or its owner went on to other engine calls first: on the real
+		// engine this call, and every later one, waits for ever.
+		w.mu.Lock()
+		for b, owner := range w.openLazy {
+			delete(w.openLazy, b)
+			w.LockLeaks = append(w.LockLeaks, fmt.Sprintf("write batch begun by %s (%d operations) was not committed when %s called %s", owner, len(b.ops), h.taskName(), site))
+		}
+		w.mu.Unlock()
 	}
 	if key != nil {
 		w.S.Yield(site, h.Node, key)
@@ -495,6 +510,14 @@ type Batch struct {
 
 func (h *Handle) BeginBatchWrite() storage.BatchWrite {
 	b := &Batch{h: h}
+	if h.W.Lazy {
+		h.W.mu.Lock()
+		if h.W.openLazy == nil {
+			h.W.openLazy = map[*Batch]string{}
+		}
+		h.W.openLazy[b] = h.taskName()
+		h.W.mu.Unlock()
+	}
 	if !h.W.Lazy {
 		if h.W.S.NodeDead(h.Node) {
 			select {}
@@ -549,6 +572,9 @@ func (b *Batch) DelCurrent(it storage.Iter) {
 func (b *Batch) Commit(ctx context.Context) error {
 	h := b.h
 	w := h.W
+	w.mu.Lock()
+	delete(w.openLazy, b)
+	w.mu.Unlock()
 	muts := make([]Mut, len(b.ops))
 	for i, o := range b.ops {
 		muts[i] = o.m
